@@ -785,6 +785,18 @@ CORPUS: list[tuple[tuple, list[tuple]]] = [
     (("data", ""), [("default", ("data", "<d>"), False)]),
     (("data", "<x>"), [("json",)]),
     (("data", ["<x>", 1, None]), [("json",), ("append", ("lit", "<"))]),
+    # error path: quote_plus cannot encode a lone surrogate
+    (("data", "\ud800<"), [("url_encode",)]),
+    (("data", "a\ud800"), [("escape",), ("url_encode",), ("append", ("lit", "x"))]),
+    # _flatten stops at depth 5: deeper lists stay lists and are stringified with ''.join
+    (("data", ["<", ["&", [">", ["'", ['"', ["a", ["<b>", ["c"]]]]]]]]), [("join", ("lit", ","))]),
+    (("data", ["<", ["&", [">", ["'", ['"', ["a", ["<b>", ["c"]]]]]]]]), [("reverse",), ("join", ("data", "<"))]),
+    (("data", ["<", ["&", [">", ["'", ['"', ["a", ["<b>", ["c"]]]]]]]]), [("concat", [["<"], "&"]), ("last",)]),
+    (("data", ["<", ["&", [">", ["'", ['"', ["a", ["<b>", ["c"]]]]]]]]), []),
+    # double escape: the escape filter applied to Markup, and a capture re-escaped through join
+    (("capture", [(("data", "<"), [])]), [("escape",)]),
+    (("capture", [(("data", "<"), [])]), [("join", ("lit", "-"))]),
+    (("lit", "a&lt;b"), [("split", ("lit", "")), ("join", None)]),
 ]
 
 
@@ -876,6 +888,50 @@ def _has_markup(e: tuple) -> bool:
     return False
 
 
+UNMODELLED = ["sort", "sort_natural", "sort_numeric", "uniq", "compact", "map: 'k'", "where: 'k'", "where: 'k', A", "sum",
+              "find: 'k', A", "reject: 'k'", "has: 'k'", "at_least: 1", "at_most: A", "plus: A", "minus: 1", "times: 2", "abs",
+              "ceil", "floor", "round", "divided_by: 2", "modulo: 3", "date: A", "date: '%Y-%m-%d'", "t", "t: x: A",
+              "gettext", "gettext: x: A", "ngettext: A, 2", "pgettext: A", "npgettext: A, A, 2", "t: A, plural: A, count: 2",
+              "json: 2", "default: A, allow_false: true", "slice: A", "truncate: A", "truncatewords: A, A"]
+
+
+def oracle_only_chains(chk: C.Check, r, n: int) -> dict[str, Any]:  # noqa: ANN001
+    """Chains that mix the modelled filters with the ones outside the model
+    (sorting, map/where, arithmetic, date, the translation filters ...):
+    syntactic oracle only, on the rendered text."""
+    done = 0
+    nontrivial: set[str] = set()
+    for _ in range(n):
+        s = Src()
+        left = ("data", r.choice([g_str(r, 10), g_list(r), [{"k": g_str(r, 4), g_str(r, 3): g_str(r, 3)} for _ in range(r.randint(0, 3))],
+                                  {g_str(r, 3): g_str(r, 3), "k": g_str(r, 3)}, "2020-01-02", 1577923200, g_str(r, 5)]))
+        parts = [s.left(left)]
+        for _ in range(r.randint(1, 5)):
+            if r.random() < 0.5:
+                f = r.choice(UNMODELLED)
+                while "A" in f.split(":", 1)[-1] and " A" in f:
+                    f = f.replace(" A", " " + s.var(r.choice([g_str(r, 4), g_str(r, 4), 2, "%Y<%m>", None])), 1)
+                parts.append(f)
+            else:
+                try:
+                    parts.append(s.filt(g_filter(r, True)))
+                except Unmodelled:
+                    continue
+        src = "{{ " + " | ".join(parts) + " }}"
+        try:
+            out = env().from_string(src).render(**s.data)
+        except Exception:  # noqa: BLE001
+            continue
+        done += 1
+        fail = syntactic_oracle(src + " | slice", out)   # no judgement on '&': cutting filters may be present
+        if fail:
+            chk.finding("oracle:" + fail[:40], f"{src} with {s.data!r} renders {out!r}: {fail}",
+                        {"src": src, "data": s.data, "output": out})
+        if any(c in repr(s.data) for c in "<>&"):
+            nontrivial.add(src + repr(s.data))
+    return {"rendered": done, "nontrivial": nontrivial}
+
+
 DATE_WITNESS = {
     "first": {"src": "{{ d | date: '<b>%Y' }}", "data": {"d": "2020-01-02"}},
     "second": {"src": "{{ d | date: f }}", "data": {"d": "2020-01-02", "f": "<b>%Y"}},
@@ -914,28 +970,32 @@ def main(chk: C.Check, build: C.Build) -> None:
                           budget_numerals=700_000 if not thorough else 6_000_000)
     from . import c04_programs as P
     pr = P.program_level(chk, C.rng("c04", "programs"), 500 if not thorough else 6000)
+    oo = oracle_only_chains(chk, C.rng("c04", "unmodelled"), 800 if not thorough else 8000)
     date_cache_witness(chk)
 
-    C.correspond(chk, "c04", IMPORTS, defs(), ex["items"], what="Markup.eval_chain/output", shard=150)
+    shard = max(100, min(400, -(-len(ex["items"]) // C.JOBS)))   # one wave of coqc processes when possible
+    C.correspond(chk, "c04", IMPORTS, defs(), ex["items"], what="Markup.eval_chain/output", shard=shard)
     chk.coverage["code_version"] = code_version()
     C.proofs_verdict(chk, proofs_ok)
 
     st = ex["stats"]
     chk.coverage.update({
-        "evaluations": st["cases"] + pr["programs"],
-        "distinct_nontrivial": len(ex["nontrivial"]) + len(pr["nontrivial"]),
+        "evaluations": st["cases"] + pr["programs"] + oo["rendered"],
+        "distinct_nontrivial": len(ex["nontrivial"]) + len(pr["nontrivial"]) + len(oo["nontrivial"]),
         "rule": ("expression level: the recorded corpus, a fixed sweep (every modelled filter x boundary left values x boundary "
                  "arguments; quick: a seeded 30% of it) and seeded random chains of length <= "
                  f"{4 if not thorough else 6} over the Markup-aware filters with literal and data arguments, applied to data strings over "
                  "{< > & ' \" a} mixed with entity/percent/newline fragments, nested lists, ints, nil, bools, literals, template strings and "
                  "captures; each is run on the real engine (typed value of FilteredExpression.evaluate + Template.render) and in the Coq model. "
+                 "oracle-only chains additionally mix in the filters outside the model (sorting, map/where/find, arithmetic, date, t/gettext/"
+                 "ngettext/pgettext/npgettext, json with indent). "
                  "program level (oracle only): generated templates with captures, partials (render/include), macros, loops, template-string "
                  "interpolation, translate blocks, block.super, cycle/echo/assign/liquid tags, plain literals, data strings over "
                  "{< > & ' \" a}* nested in lists and dicts, as dict keys and as filter arguments. "
                  "non-trivial = distinct (source, data) whose data contains at least one of the five characters and whose render reached the "
                  "oracle (so the escaping mechanism decided the output)"),
         "samples": ex["samples"] + pr["samples"][:2],
-        "distribution": {"expression": st, "program": pr["stats"]},
+        "distribution": {"expression": st, "program": pr["stats"], "oracle_only_chains_rendered": oo["rendered"]},
         "exhaustive": False,
         "tier_proved": "kernel (Markup value algebra, filters, filter chains, template strings, captures)",
     })
